@@ -80,6 +80,10 @@ class World:
             for gname, defs in mi.assigns.items():
                 if len(defs) == 1 and isinstance(defs[0], (_ast.Call, _ast.Dict, _ast.List, _ast.Set)) and not gname.startswith("__"):
                     self.I.global_value(mi, gname, defs[0], self.state)
+            for ci in mi.classes.values():
+                for attr, expr in ci.class_attrs.items():
+                    if isinstance(expr, (_ast.Call, _ast.Dict, _ast.List, _ast.Set)) and not attr.startswith("__"):
+                        self.I.class_attr_value(ci, attr, expr, expr, self.state)
 
     # ---------------------------------------------------------------- model
     def make_model(self, *, custom_gamma: bool = False, overrides: Optional[Dict[str, Val]] = None, tag: str = "model") -> Ptr:
@@ -103,6 +107,24 @@ class World:
             raise AnalysisError(f"abstract construction of {self.roles.model.name} failed")
         c = self.state.heap[ptr.loc]
         self.state.heap[ptr.loc] = replace(c, origin="input:model")
+        # containers created by the constructor and held by the model are model state too
+        work = [v for _, v in c.obj.fields]
+        seen = set()
+        while work:
+            v = work.pop()
+            if isinstance(v, Ptr) and v.loc in self.state.heap and v.loc not in seen and v.loc != ptr.loc:
+                seen.add(v.loc)
+                cc = self.state.heap[v.loc]
+                if cc.origin.startswith("alloc"):
+                    self.state.heap[v.loc] = replace(cc, origin="input:model-owned")
+                o = cc.obj
+                if hasattr(o, "fields"):
+                    work.extend(x for _, x in o.fields)
+                elif hasattr(o, "seq"):
+                    work.append(o.seq.elem)
+                    work.extend(o.seq.fixed or ())
+                elif hasattr(o, "val"):
+                    work.append(o.val)
         self.model = ptr
         return ptr
 
